@@ -2,6 +2,7 @@ import PoxModel.Proofs.Layout
 import PoxModel.Proofs.CodecMatch
 import PoxModel.Proofs.CodecNXM
 import PoxModel.Model.CodecOF
+import PoxModel.Model.CodecNX
 /-! # C01 — the OpenFlow 1.0 wire codec is lossless and has the specified layout
 
 Property theorems only.  The data they speak about (`Generated.classes`, the registries, `Generated.untranslated`) is
@@ -421,6 +422,96 @@ theorem nx_match_roundtrip (es : List CodecNXM.Entry)
     (∃ bs, CodecNXM.encMatch (es.map fun e => (e.value.length, e)) = some bs ∧
       CodecNXM.decMatch bs = some es) ∧ ∀ n, (n + CodecNXM.pad8 n) % 8 = 0 ∧ CodecNXM.pad8 n < 8 :=
   ⟨CodecNXM.nx_match_roundtrip CodecNXM.known es h, CodecNXM.pad8_law⟩
+
+/-! ## 6b. `nx_flow_mod` and `nxt_packet_in` (hand models `Model/CodecNX.lean`) -/
+
+open Pox.CodecNX Pox.CodecNXM in
+/-- **`nx_flow_mod_roundtrip`**: for every Nicira flow-mod with in-range fields (`command`, `table_id` < 256: they share one
+    16-bit word), any list of canonical NXM entries as its match and any list of well-formed actions, as long as the
+    message fits its 16-bit length: `pack` succeeds; `unpack` — header, fixed fields, `match_len` bytes of NXM entries, the
+    pad to a multiple of 8, actions to the end — returns exactly the message (with `table_id` split from `command`) and
+    leaves exactly what followed; the header length is the byte count. -/
+theorem nx_flow_mod_roundtrip (n : Nat) (m : NxFlowMod (Elem n)) (tl : Bytes)
+    (hv : m.version < 256) (hht : m.header_type < 256) (hx : m.xid < 2 ^ 32) (hvn : m.vendor < 2 ^ 32)
+    (hst : m.subtype < 2 ^ 32) (hck : m.cookie < 2 ^ 64) (hc : m.command < 256) (htb : m.table_id < 256)
+    (hi : m.idle_timeout < 65536) (hh : m.hard_timeout < 65536) (hp : m.priority < 65536) (hb : m.buffer_id < 2 ^ 32)
+    (ho : m.out_port < 65536) (hfl : m.flags < 65536)
+    (hm : ∀ e ∈ m.match_, Canonical e.value.length e ∧ e.value.length < 64 ∧ e.type < 2 ^ 23 ∧
+      (known e.type = some e.value.length ∨ known e.type = none))
+    (hacts : ∀ e ∈ m.actions, okAt env n "actions" e)
+    (hlen : ∀ mb acts, packMatch m.match_ = some mb → encList ((codecAt env n).enc "actions") m.actions = some acts →
+      48 + mb.length + pad8 mb.length + acts.length < 65536) :
+    ∃ bs, encNxFlowMod (codecAt env n) m = some bs ∧ decNxFlowMod (codecAt env n) (bs ++ tl) = some (m, tl) ∧
+      hdrLen nxfmL (bs ++ tl) = some bs.length := by
+  obtain ⟨mb, hemb, hdmb⟩ := CodecNXM.nx_match_roundtrip known m.match_ hm
+  obtain ⟨acts, hea, hda⟩ := decList_encList ((codecAt env n).enc "actions") ((codecAt env n).dec "actions") m.actions
+    (fun e he => codecAt_good env n "actions" e (hacts e he))
+  have hL := hlen mb acts hemb hea
+  have hml : mb.length < 65536 := by omega
+  have hcmd : m.command + 256 * m.table_id < 65536 := by omega
+  have hf : Fits (codecAt env n) (okAt env n) nxfmL
+      ⟨nxfmVals m mb.length, .rest (mb ++ zeros (pad8 mb.length) ++ acts)⟩ := by
+    refine ⟨?_, trivial, ?_⟩
+    · simp [nxfmL, nxfmVals, Spec.OF10.ofp_header, fitsFixed, hv, hht, hx, hvn, hst, hck, hcmd, hi, hh, hp, hb, ho, hfl, hml]
+    · intro t htl
+      simp only [nxfmL, encTail, Option.some.injEq] at htl
+      subst htl
+      simp only [nxfmL, Spec.OF10.ofp_header, List.cons_append, List.nil_append, fixedSize, lenFits,
+        List.length_append, zeros_length, Bool.and_true, decide_eq_true_eq]
+      omega
+  have hlenL : hasLen nxfmL.fixed = true := by decide
+  obtain ⟨bs, _, he, _, hd, _, hh'⟩ := roundtrip_nested env n nxfmL _ none tl hf (.inl hlenL)
+  have hpm : packMatch m.match_ = some mb := hemb
+  refine ⟨bs, by unfold encNxFlowMod; rw [hpm, hea]; simp only [hc, ↓reduceIte]; exact he, ?_, hh' hlenL⟩
+  have h1 : ¬ ((mb ++ zeros (pad8 mb.length) ++ acts).length < mb.length + pad8 mb.length) := by
+    simp only [List.length_append, zeros_length]; omega
+  have h2 : (mb ++ zeros (pad8 mb.length) ++ acts).take mb.length = mb := by
+    rw [List.append_assoc]; exact List.take_left' rfl
+  have h3 : (mb ++ zeros (pad8 mb.length) ++ acts).drop (mb.length + pad8 mb.length) = acts :=
+    List.drop_left' (by simp)
+  have h4 : (m.command + 256 * m.table_id) % 256 = m.command := by omega
+  have h5 : (m.command + 256 * m.table_id) / 256 = m.table_id := by omega
+  have h6 : decMatch mb = some m.match_ := hdmb
+  simp only [decNxFlowMod, hd, nxfmVals, h1, ↓reduceIte, h2, h3, h4, h5, h6, hda acts.length (Nat.le_refl _)]
+
+open Pox.CodecNX Pox.CodecNXM in
+/-- **`nxt_packet_in_roundtrip`**: the Nicira packet-in (NXM match, pad to 8, two pad bytes, packet data) -/
+theorem nxt_packet_in_roundtrip (p : NxPacketIn) (tl : Bytes)
+    (hv : p.version < 256) (hht : p.header_type < 256) (hx : p.xid < 2 ^ 32) (hvn : p.vendor < 2 ^ 32)
+    (hst : p.subtype < 2 ^ 32) (hb : p.buffer_id < 2 ^ 32) (htl : p.total_len < 65536) (hr : p.reason < 256)
+    (htb : p.table_id < 256) (hck : p.cookie < 2 ^ 64)
+    (hm : ∀ e ∈ p.match_, Canonical e.value.length e ∧ e.value.length < 64 ∧ e.type < 2 ^ 23 ∧
+      (known e.type = some e.value.length ∨ known e.type = none))
+    (hlen : ∀ mb, packMatch p.match_ = some mb → 40 + mb.length + pad8 mb.length + 2 + p.data.length < 65536) :
+    ∃ bs, encNxPacketIn p = some bs ∧ decNxPacketIn (bs ++ tl) = some (p, tl) ∧
+      hdrLen nxpiL (bs ++ tl) = some bs.length := by
+  obtain ⟨mb, hemb, hdmb⟩ := CodecNXM.nx_match_roundtrip known p.match_ hm
+  have hL := hlen mb hemb
+  have hml : mb.length < 65536 := by omega
+  have hf : Fits Codec.empty (fun _ (e : Empty) => e.elim) nxpiL
+      ⟨nxpiVals p mb.length, .rest (mb ++ zeros (pad8 mb.length + 2) ++ p.data)⟩ := by
+    refine ⟨?_, trivial, ?_⟩
+    · simp [nxpiL, nxpiVals, Spec.OF10.ofp_header, fitsFixed, hv, hht, hx, hvn, hst, hb, htl, hr, htb, hck, hml]
+    · intro t htl'
+      simp only [nxpiL, encTail, Option.some.injEq] at htl'
+      subst htl'
+      simp only [nxpiL, Spec.OF10.ofp_header, List.cons_append, List.nil_append, fixedSize, lenFits,
+        List.length_append, zeros_length, Bool.and_true, decide_eq_true_eq]
+      omega
+  have hlenL : hasLen nxpiL.fixed = true := by decide
+  have hgood : Codec.empty.Good (fun _ (e : Empty) => e.elim) := fun _ e => e.elim
+  obtain ⟨bs, t, he, _, hd, _⟩ := decode_encode Codec.empty _ hgood nxpiL _ none tl hf (.inl hlenL)
+  have hh := lenfield_exact Codec.empty nxpiL _ bs tl hf.1 hlenL he
+  have hpm : packMatch p.match_ = some mb := hemb
+  refine ⟨bs, by unfold encNxPacketIn; rw [hpm]; exact he, ?_, hh⟩
+  have h1 : ¬ ((mb ++ zeros (pad8 mb.length + 2) ++ p.data).length < mb.length + (pad8 mb.length + 2)) := by
+    simp only [List.length_append, zeros_length]; omega
+  have h2 : (mb ++ zeros (pad8 mb.length + 2) ++ p.data).take mb.length = mb := by
+    rw [List.append_assoc]; exact List.take_left' rfl
+  have h3 : (mb ++ zeros (pad8 mb.length + 2) ++ p.data).drop (mb.length + (pad8 mb.length + 2)) = p.data :=
+    List.drop_left' (by simp)
+  have h6 : decMatch mb = some p.match_ := hdmb
+  simp only [decNxPacketIn, hd, nxpiVals, h1, ↓reduceIte, h2, h3, h6]
 
 /-- what is *not* proved about NXM: that each registered type's value/mask conversion (`_pack_value`/`_unpack_value`
     for numbers, IP, IPv6, Ethernet) is lossless, and the prerequisite ordering of entries.  Tested only. -/
